@@ -188,6 +188,15 @@ fn main() {
             for e in sc.errors {
                 rep.harness_errors.push(format!("oracle self-check: {}", e));
             }
+            match selfcheck::canary(&ctx) {
+                Ok((planted, reported)) => {
+                    rep.selfcheck.set(
+                        "canary_planted_errors_reported",
+                        spverif::json::J::s(&format!("{} of {}", reported, planted)),
+                    );
+                }
+                Err(e) => rep.harness_errors.push(e),
+            }
             if !rep.harness_errors.is_empty() {
                 rep.write(&ctx);
                 eprintln!("HARNESS-ERROR: oracle self-check failed: {:?}", rep.harness_errors);
